@@ -34,7 +34,13 @@ def describe(tf):
     """Class name (+ parameter class for the exponent: integer / non-integer k, m), wrapper shown explicitly."""
     name = type(tf).__name__
     if name == "InverseRTransform":
-        return f"InverseRTransform({describe(tf._tfm)})"
+        # wrappers of wrappers are labelled by their reduced form (an even number of inversions is the base map, an odd number its
+        # inverse): the same documented behaviour, hence the same subject; the depth goes into the counters
+        depth, t = 0, tf
+        while type(t).__name__ == "InverseRTransform" and depth < 16:
+            depth, t = depth + 1, t._tfm
+        base = describe(t)
+        return base if depth % 2 == 0 else f"InverseRTransform({base})"
     for attr in ("k", "m"):
         if name in ("KnowlesRTransform", "HandyRTransform", "HandyModRTransform") and hasattr(tf, attr):
             if not float(getattr(tf, attr)).is_integer():
